@@ -67,7 +67,7 @@ CONTRACTS.update({
  'SourceDataWrapper.determine_dtypes': dict(
     props=[], axiom=True, params={'data_object': 'opq:source', 'mapping': M2, 'known_dtypes': 'opq:known'}, returns='opq:sdtype',
     raises={'ValueError': 'dtype_value_error(data_object, known_dtypes)', 'RuntimeError': 'not dtype_value_error(data_object, known_dtypes) and too_many_dims(data_object)'},
-    ensures=[]),
+    ensures=["not source_missing(data_object, mapping['K0'])", "not source_missing(data_object, mapping['K1'])"]),
  'SourceDataWrapper.__init__': dict(
     props=['C11', 'C12', 'C03'], self_class='SourceDataWrapper', self_fields={}, self_inv=[],
     params={'data_source': 'opq:source', 'mapping': M2, 'known_dtypes': 'opq:known', 'from_idx': 'int', 'to_idx': 'int?'}, returns='none',
@@ -86,6 +86,8 @@ CONTRACTS.update({
  'SourceDataWrapper.load_chunk[base]': dict(
     target='SourceDataWrapper.load_chunk', self_class='SourceDataWrapper', props=['C11', 'C03', 'C19'],
     self_fields=dict(SW_FIELDS, _mapping=M2), params={'start': 'int', 'stop': 'int?'}, returns='opq:chunk',
+    # type invariant of a constructed wrapper: every mapped dataset exists in the source (checked by determine_dtypes at construction)
+    requires=["not source_missing(self._data_source, self._mapping['K0'])", "not source_missing(self._data_source, self._mapping['K1'])"],
     raises={'ValueError': LOAD_RAISES},
     ensures=[('rows-of-the-window', 'result.first_row == self._from_idx + start'), ('row-count', f'result.n_rows == {STOP} - start'),
              ('chunk-dtype', 'result.sdtype == self._dtype'),
@@ -124,7 +126,7 @@ CONTRACTS.update({
     props=['C03'], self_fields=MFD_FIELDS, params={}, returns='int', ensures=[('one-record-per-row', 'result == self._data_source._n_rows')]),
 })
 
-for _k in (1, 2, 3):
+for _k in (1, 2):
     _slots = ' + '.join(f'self._slots[{i}].byteswap().tobytes()' for i in range(_k))
     CONTRACTS[f'FrameData._make_body_bytes[{_k}-slots]'] = dict(
         target='FrameData._make_body_bytes', props=['C03', 'C08', 'C19'],
@@ -141,10 +143,12 @@ CONTRACTS['MultiFrameData.__init__'] = dict(
     params={'frame': {'cls': 'FrameItem', 'fields': {'_origin_reference': 'int?', 'channels': {'cls': 'Attribute', 'fields': {'_value': 'list[obj:NamedT]*2'}}}},
             'data': {'cls': 'SourceDataWrapper', 'fields': SW_FIELDS, 'inv': SW_INV}, 'chunk_size': 'int?'},
     returns='none', may_raise=['ValueError', 'TypeError'],
+    modifies=['self._frame', 'self._data_source', 'self._i', 'self._chunk_rows', 'self._origin_reference', 'self._data_item_generator'],
     stubs={'_check_type': dict(returns='none', raises=True)},
     ensures=[('chunk-size-positive-or-none', 'self._chunk_rows is None or self._chunk_rows >= 1'), ('chunk-size-kept', 'self._chunk_rows == chunk_size'),
-             ('own-counter-from-zero', 'self._i == 0'), ('own-frame-and-data', 'self._frame is frame and self._data_source is data'),
+             ('own-counter-from-zero', 'self._i == 0'), ('own-frame', 'self._frame is frame'), ('own-data', 'self._data_source is data'),
              ('origin-of-the-frame', 'self._origin_reference == frame._origin_reference')])
+MODELS['MultiFrameData'] = {'fields': MFD_FIELDS, 'inv': []}
 MODELS['NamedT'] = {'cls': 'ChannelItem', 'fields': {'name': 'str'}}
 OPQ_MODELS['names'] = {'__isinstance__': {}}
 
@@ -156,8 +160,9 @@ SPEC_UFS.update({
     'dtype_unsupported': (('opq',), 'bool'), 'np_dtype': (('opq',), 'opq'), 'dtype_newbyteorder': (('opq', 'str'), 'opq'),
 })
 CONTRACTS['ReprCodeConverter.validate_numpy_dtype'] = dict(
-    props=[], axiom=True, params={'number_type': 'opq:dtype'}, returns='opq:pair', self_is_class=True,
-    raises={'ValueError': 'dtype_unsupported(number_type)'}, ensures=[])
+    props=[], axiom=True, params={'number_type': 'opq:dtype'}, returns='tuple[str,enumv:RepresentationCode]', self_is_class=True,
+    raises={'ValueError': 'dtype_code(number_type.name) == -1'},
+    ensures=['result[0] == number_type.name', 'result[1].value == dtype_code(number_type.name)'])
 
 
 def _row0(k):
@@ -180,5 +185,41 @@ for _known in ((), ('K0',), ('K1',), ('K0', 'K1')):
                   f"field_dtype(result, '{k}') == dtype_newbyteorder(np_dtype({_wanted(k, _known)}), '=')") for k in ('K0', 'K1')] +
                 [(f'field-{k}-width-is-the-row-width-of-a-2d-dataset',
                   f"field_width(result, '{k}') == ({_row0(k)}.shape[-1] if {_row0(k)}.ndim > 1 else 0)") for k in ('K0', 'K1')] +
-                [('no-more-than-two-dimensions', f'{_row0("K0")}.ndim <= 2 and {_row0("K1")}.ndim <= 2'),
-                 ('every-dtype-validated', f"not dtype_unsupported({_wanted('K0', _known)}) and not dtype_unsupported({_wanted('K1', _known)})")])
+                [('mapped-datasets-exist', "not source_missing(data_object, mapping['K0']) and not source_missing(data_object, mapping['K1'])"),
+                 ('no-more-than-two-dimensions', f'{_row0("K0")}.ndim <= 2 and {_row0("K1")}.ndim <= 2'),
+                 ('every-dtype-validated', f"dtype_code({_wanted('K0', _known)}.name) != -1 and dtype_code({_wanted('K1', _known)}.name) != -1")])
+
+# ---------------------------------------------------------------------------------------------- LogicalFile._make_multi_frame_data
+CONTRACTS['DictDataWrapper.__init__'] = dict(
+    props=[], axiom=True, params={'data_dict': 'dict{}', 'mapping': 'opq:mapping', 'known_dtypes': 'opq:known', 'from_idx': 'int', 'to_idx': 'int?'},
+    returns='none', modifies=['self._data_source', 'self._from_idx', 'self._to_idx', 'self._dtype', 'self._mapping', 'self._n_rows'],
+    self_fields={'_data_source': 'dict{}', '_from_idx': 'int', '_to_idx': 'int', '_dtype': 'opq:sdtype', '_mapping': 'opq:mapping', '_n_rows': 'int'},
+    raises={'AnyException': 'wrapper_rejects(data_dict, mapping, known_dtypes, from_idx)'},
+    ensures=['self._data_source is data_dict', 'self._from_idx == from_idx'])
+SPEC_UFS['wrapper_rejects'] = (('opq', 'opq', 'opq', 'int'), 'bool')
+OPQ_MODELS['arr'] = {'__isinstance__': {'np.ndarray': True}}
+OPQ_MODELS['mapping'] = {'__isinstance__': {}}
+OPQ_MODELS['known'] = {'__isinstance__': {}}
+FR = {'cls': 'FrameItem', 'fields': {'_origin_reference': 'int?'}}
+for _own, _passed in (('dict{}', 'dict{A:opq:arr,B:opq:arr}'), ('dict{A:opq:arr}', 'dict{A:opq:arr,B:opq:arr}'), ('dict{A:opq:arr}', 'none'),
+                      ('dict{A:opq:arr,C:opq:arr}', 'dict{A:opq:arr}')):
+    _nm = f'own={_own[4:].replace(":opq:arr", "")},passed={_passed[4:].replace(":opq:arr", "") if _passed != "none" else "None"}'
+    _ens = [('the-file-keeps-its-own-merged-dict-never-the-callers', 'self._data_dict is not data'),
+            ('the-wrapper-reads-the-merged-dict', 'result._data_source._data_source is self._data_dict'),
+            ('window-forwarded', 'result._data_source._from_idx == from_idx')]
+    if _passed != 'none':
+        _keys = [k.split(':')[0] for k in _passed[5:-1].split(',')]
+        _ens += [(f'data-passed-to-this-write-wins-for-{k}', f"self._data_dict['{k}'] is data['{k}']") for k in _keys]
+        _ens += [('callers-dict-keeps-its-keys', f'len(data) == {len(_keys)}')]
+    CONTRACTS[f'LogicalFile._make_multi_frame_data[{_nm}]'] = dict(
+        target='LogicalFile._make_multi_frame_data', props=['C03', 'C11', 'C14', 'C19'],
+        self_fields={'_data_dict': _own}, params={'fr': FR, 'data': _passed, 'from_idx': 'int', 'to_idx': 'int?', 'kwargs': {}},
+        returns={'cls': 'MultiFrameData', 'fields': {}},
+        stubs={'channel_name_mapping': dict(returns='opq:mapping', pure=True), 'known_channel_dtypes_mapping': dict(returns='opq:known', pure=True),
+               '_check_data': dict(returns='none', raises=True), 'setup_from_data': dict(returns='none', raises=True),
+               '_check_type': dict(returns='none', raises=True)},
+        may_raise=['AnyException', 'ValueError', 'TypeError', 'RuntimeError'],
+        ensures=_ens)
+
+for _t in ('dtype', 'sdtype', 'ndarray', 'sarray', 'source', 'chunk', 'slot', 'row', 'arr'):
+    OPQ_MODELS[_t]['__truthy__'] = True      # objects of the library, never None
